@@ -60,10 +60,10 @@ UNIT = Unit(
     properties=["C05"],
     rules=["attrs", "iter_map_collect"],
     describe="name resolution's scoping: ResolveLocalEnv (new / enter_scope / add) and the six scoping-relevant arms of "
-             "NameResolution::resolve_expr (block, match, closure, let, if, while) against the rule `leak`: a `let` leaves exactly its "
+             "NameResolution::resolve_expr (block, match, closure, let, if, while) and six pass-through arms (unary, binary, projection, tuple, array, go) against the rule `leak`: a `let` leaves exactly its "
              "pattern's variables in scope for the code after it; a block, a match arm and a closure body are scopes — nothing bound "
              "inside them is visible afterwards; if/while pass on what their parts leave",
-    trusted=["FRAGMENTS: each verified arm is the inside of one `ast::Expr::X {..} => { .. }` block of resolve_expr; the 25 other arms "
+    trusted=["FRAGMENTS: each verified arm is the inside of one `ast::Expr::X {..} => { .. }` block of resolve_expr; the 19 other arms "
              "(which hand the environment to their sub-expressions in order) are NOT verified",
              "the recursive calls resolve_expr / resolve_pat are stubs carrying the contract under proof (induction hypothesis); "
              "resolve_pat's contract (it binds exactly the pattern's variables) is assumed",
@@ -138,5 +138,22 @@ UNIT = Unit(
         arm("resolve_while", "ast::Expr::EWhile { cond, body, astptr } => {",
             "cond: &Box<ast::Expr>, body: &Box<ast::Expr>, astptr: &ast::MySyntaxNodePtr",
             "env_names(final(env).0@) == env_names(old(env).0@) + (leak(**cond) + leak(**body))"),
+        # arms that only hand the environment on to their sub-expressions, in evaluation order
+        arm("resolve_unary", "ast::Expr::EUnary { op, expr, astptr } => {", "op: &ast::UnaryOp, expr: &Box<ast::Expr>, astptr: &ast::MySyntaxNodePtr",
+            "env_names(final(env).0@) == env_names(old(env).0@) + leak(**expr)"),
+        arm("resolve_binary", "ast::Expr::EBinary {\n                op,\n                lhs,\n                rhs,\n                astptr,\n            } => {",
+            "op: &ast::BinaryOp, lhs: &Box<ast::Expr>, rhs: &Box<ast::Expr>, astptr: &ast::MySyntaxNodePtr",
+            "env_names(final(env).0@) == env_names(old(env).0@) + (leak(**lhs) + leak(**rhs))",
+            obligation="the left operand is resolved before the right one: what it binds is visible to the right operand, not the other way round"),
+        arm("resolve_proj", "ast::Expr::EProj {\n                tuple,\n                index,\n                astptr,\n            } => {",
+            "tuple: &Box<ast::Expr>, index: &usize, astptr: &ast::MySyntaxNodePtr",
+            "env_names(final(env).0@) == env_names(old(env).0@) + leak(**tuple)"),
+        arm("resolve_tuple", "ast::Expr::ETuple { items, astptr } => {", "items: &Vec<ast::Expr>, astptr: &ast::MySyntaxNodePtr",
+            "env_names(final(env).0@) == env_names(old(env).0@) + leaks(items@, items@.len() as int)", seq_loop("leaks"),
+            obligation="tuple items are resolved left to right, each seeing what the earlier ones bound"),
+        arm("resolve_array", "ast::Expr::EArray { items, astptr } => {", "items: &Vec<ast::Expr>, astptr: &ast::MySyntaxNodePtr",
+            "env_names(final(env).0@) == env_names(old(env).0@) + leaks(items@, items@.len() as int)", seq_loop("leaks")),
+        arm("resolve_go", "ast::Expr::EGo { expr, astptr } => {", "expr: &Box<ast::Expr>, astptr: &ast::MySyntaxNodePtr",
+            "env_names(final(env).0@) == env_names(old(env).0@) + leak(**expr)"),
     ],
 )
